@@ -304,12 +304,22 @@ type decoded struct {
 	calls         int
 }
 
-func decodeAll(r io.Reader, limit int) decoded {
+func decodeAll(r io.Reader, limit int) decoded { return decodeAllInto(r, limit, false) }
+
+// decodeAllInto drains a decoder.  With reuse, every statement is decoded into ONE
+// destination variable declared outside the loop and a value copy of each policy is kept -
+// an ordinary way to use the API; the copies must stay what they were.
+func decodeAllInto(r io.Reader, limit int, reuse bool) decoded {
 	dec := cedar.NewDecoder(r)
 	var out decoded
+	var shared cedar.Policy
 	for i := 0; i < limit; i++ {
-		var p cedar.Policy
-		err := dec.Decode(&p)
+		var fresh cedar.Policy
+		p := &fresh
+		if reuse {
+			p = &shared
+		}
+		err := dec.Decode(p)
 		out.calls++
 		if err != nil {
 			out.err = err
@@ -323,7 +333,7 @@ func decodeAll(r io.Reader, limit int) decoded {
 			}
 			return out
 		}
-		pp := p
+		pp := *p
 		out.policies = append(out.policies, &pp)
 	}
 	out.err = errors.New("harness: decode limit reached without terminal error")
@@ -370,8 +380,9 @@ func (f fault) String() string {
 }
 
 type schedule struct {
-	style    int // 0 mixed, 1 all full, 2 all single bytes, 3 small
-	eofStyle int // 0 separate (0,EOF), 1 data+EOF with the last chunk
+	style    int  // 0 mixed, 1 all full, 2 all single bytes, 3 small
+	eofStyle int  // 0 separate (0,EOF), 1 data+EOF with the last chunk
+	reuseDst bool // decode every statement into one reused destination variable
 }
 
 type chunkStats struct {
@@ -562,11 +573,11 @@ func (p Prop) Run(r *core.Run) *core.Violation {
 
 	switch {
 	case mode <= 3 || mode == 7:
-		sch := schedule{style: r.T.Intn(4), eofStyle: r.T.Intn(2)}
+		sch := schedule{style: r.T.Intn(4), eofStyle: r.T.Intn(2), reuseDst: r.T.Intn(3) == 2}
 		return p.oneSchedule(r, doc, base, sch, fault{}, inside, cont, interesting, limit)
 	case mode <= 5:
 		f := fault{kind: []string{"err0", "errn", "eof"}[r.T.Intn(3)], at: r.T.Intn(len(doc.data) + 1), follow: []string{"sticky", "then-eof", "transient"}[r.T.Intn(3)], errKind: r.T.Intn(len(faultErrors))}
-		sch := schedule{style: r.T.Intn(4), eofStyle: r.T.Intn(2)}
+		sch := schedule{style: r.T.Intn(4), eofStyle: r.T.Intn(2), reuseDst: r.T.Intn(3) == 2}
 		return p.oneSchedule(r, doc, base, sch, f, inside, cont, interesting, limit)
 	default:
 		// every byte position x every fault kind x every follow-up of this document
@@ -578,7 +589,7 @@ func (p Prop) Run(r *core.Run) *core.Violation {
 					follows = follows[:1]
 				}
 				for _, fo := range follows {
-					sch := schedule{style: r.T.Intn(4), eofStyle: r.T.Intn(2)}
+					sch := schedule{style: r.T.Intn(4), eofStyle: r.T.Intn(2), reuseDst: r.T.Intn(3) == 2}
 					if v := p.oneSchedule(r, doc, base, sch, fault{kind: k, at: at, follow: fo, errKind: r.T.Intn(len(faultErrors))}, inside, cont, interesting, limit); v != nil {
 						return v
 					}
@@ -600,7 +611,7 @@ func (p Prop) oneSchedule(r *core.Run, doc *document, base decoded, sch schedule
 	rd, cs := makeReader(r.T, doc.data, sch, f, interesting, r.Tracing)
 	// hang detection is per decode: generous and proportional to the input, never per run
 	r.Sim.Budget(2_000_000 + 2000*uint64(len(doc.data)))
-	got := decodeAll(rd, limit)
+	got := decodeAllInto(rd, limit, sch.reuseDst)
 	r.Sim.Budget(50_000_000)
 	r.Count("executions")
 	if got.afterTerminal {
